@@ -162,6 +162,10 @@ def _build_block(desc, b, built, shared=None):
             return sp.Merge([build_block(desc, x, built, shared) for x in b["bs"]], cs, mode=b["mode"], alignment=b.get("align"))
         if b.get("defaults"):
             # the library's own defaults for mode and alignment (what `Merge([b])` in the documentation means)
+            if not cs:
+                # literally `Merge([b])`: no constraints argument either (the signature's default list is shared by
+                # every such call in the process, so anything a call leaves in it shows in the next one)
+                return sp.Merge([build_block(desc, x, built, shared) for x in b["bs"]])
             return sp.Merge([build_block(desc, x, built, shared) for x in b["bs"]], cs)
         return sp.Merge([build_block(desc, x, built, shared) for x in b["bs"]], cs, mode=MODES[b["mode"]], alignment=al)
     if k == "nest":
